@@ -29,7 +29,9 @@ var c13ViewHeaders = map[string]any{
 	"X-View-Hdrs":   `{{ index .Request.Headers "X-Custom" }}|{{ index .Request.Headers "X-Multi" }}`,
 	"X-View-Cookie": `{{ .Request.Cookie "sess" }}|{{ .Request.Cookie "other" }}|{{ .Request.Cookie "missing" }}`,
 	"X-View-Body":   `{{ .Request.Body | toJson }}`,
-	"X-Out-Sub":     `{{ .Subject.ID }}`,
+	// forwarding headers heimdall does not interpret itself are ordinary request headers at every entry point
+	"X-View-Fwd": `{{ .Request.Header "X-Forwarded-Port" }}|{{ .Request.Header "X-Forwarded-Prefix" }}|{{ .Request.Header "X-Forwarded-User" }}`,
+	"X-Out-Sub":  `{{ .Subject.ID }}`,
 }
 
 func c13Rules(up string) []*rconfig.RuleSet {
@@ -169,7 +171,7 @@ func c13Request(rng *rand.Rand) lreq {
 		// the client sends a header the pipeline is going to produce for the upstream side: only the pipeline's value counts
 		lr.Headers[[]string{"X-Out-Sub", "x-out-sub", "X-View-Method", "X-VIEW-CAPS"}[rng.IntN(4)]] = []string{"mallory", "one\ntwo"}[rng.IntN(2)]
 	}
-	switch rng.IntN(7) {
+	switch rng.IntN(8) {
 	case 5:
 		lr.Headers["Cookie"] = "sess=s3cr3t; theme=dark; sess=second"
 	case 6:
@@ -182,10 +184,20 @@ func c13Request(rng *rand.Rand) lreq {
 		lr.Headers["Cookie"] = "sess=wrong;other=2"
 	case 3:
 		lr.Headers["Cookie"] = `sess="quoted"; other=a=b`
+	case 4:
+		// cookie headers with pairs a strict parser refuses: the other cookies are still there
+		lr.Headers["Cookie"] = []string{"sess=s3cr3t; consent", "other=J ü; sess=s3cr3t;", "a=1;;sess=s3cr3t; other=x", `prefs={"a":1,"b":"c d"}; sess=s3cr3t`, `path=c:\temp; other=2; sess=wrong`}[rng.IntN(5)]
+	}
+	if rng.IntN(5) == 0 {
+		lr.Headers[[]string{"X-Forwarded-Port", "X-Forwarded-Prefix", "X-Forwarded-User"}[rng.IntN(3)]] = []string{"8443", "/base", "mallory"}[rng.IntN(3)]
 	}
 	if lr.Method != "GET" && lr.Method != "DELETE" {
 		b := c13Bodies[rng.IntN(len(c13Bodies))]
 		lr.Body = b.body
+		if rng.IntN(8) == 0 && strings.Contains(b.ct, "json") && strings.HasPrefix(b.body, "{") {
+			// a body beyond the usual buffer sizes (4 KB ... 64 KB)
+			lr.Body = `{"pad":"` + strings.Repeat("p", 5000+rng.IntN(60000)) + `",` + b.body[1:]
+		}
 		if b.ct != "" {
 			lr.Headers["Content-Type"] = b.ct
 		}
